@@ -291,3 +291,14 @@ ofb_case!(t_ofb_write_b4_w2_n4, 40, U4, 4, U2, 16, F_WRITE);
 ofb_case!(t_ofb_bytes_b2_w1_l7, 40, U2, 2, U1, 7, F_BYTES);
 ofb_case!(t_ofb_bytes_b16_w2_l35, 80, U16, 16, U2, 35, F_BYTES);
 
+// odd / non-power-of-two block sizes
+cfb_case!(t_cfb_enc_b5_w2_l13_oneshot, 40, Encryptor, enc, true, U5, 5, U2, 13, ONESHOT);
+cfb_case!(t_cfb_dec_b7_w3_l30_oneshot_b2b, 48, Decryptor, dec, false, U7, 7, U3, 30, ONESHOT_B2B);
+cfb_case!(t_cfb_dec_b12_w2_n3_multi, 48, Decryptor, dec, false, U12, 12, U2, 36, MULTI);
+cfb8_case!(t_cfb8_enc_b5_l8_oneshot, 40, Encryptor, enc, true, U5, 5, U1, 8, ONESHOT);
+cfb8_case!(t_cfb8_dec_b7_l10_multi, 40, Decryptor, dec, false, U7, 7, U2, 10, MULTI);
+cfb8_case!(t_cfb8_dec_b12_l14_oneshot_b2b, 40, Decryptor, dec, false, U12, 12, U1, 14, ONESHOT_B2B);
+cfb8_case!(t_cfb8_enc_b16_l18_oneshot, 48, Encryptor, enc, true, U16, 16, U1, 18, ONESHOT);
+cfb8_case!(t_cfb8_dec_b16_l18_oneshot, 48, Decryptor, dec, false, U16, 16, U1, 18, ONESHOT);
+ofb_case!(t_ofb_enc_b5_w2_n3, 40, U5, 5, U2, 15, F_ENC);
+ofb_case!(t_ofb_bytes_b7_w3_l17, 40, U7, 7, U3, 17, F_BYTES);
